@@ -240,7 +240,7 @@ NoCreateNoPass == (phase = "done" /\ ev.type # "create" /\ ~st.create.present) =
 MixedNeverPass == (phase = "done" /\ st.mixedrooms) => ~verdict
 
 \* C09: the verdict only depends on the state the event needs
-OnlyNeededState == phase = "done" => verdict = Allowed(ver, Restrict(st, Needed(ev)), ev)
+OnlyNeededState == phase = "done" => verdict = Allowed(ver, RestrictTo(st, Needed(ev)), ev)
 
 Emit == phase = "done" =>
           PrintT(ToJson([ver |-> ver, st |-> st, ev |-> ev, want |-> verdict, noesc |-> noesc, fam |-> Family]))
